@@ -22,8 +22,8 @@ import (
 )
 
 type set struct {
-	pkgDir string // relative to repo
-	hook   string // file under hooks/
+	pkgDir string         // relative to repo
+	hook   string         // file under hooks/
 	seams  map[string]int // func name -> expected number of parameters (flattened)
 }
 
